@@ -103,6 +103,10 @@ fn run(log: &mut Log, tag: &str, alpha: &[u8], sc: &Scheme, how: u64, cap: (usiz
     let mut cfg = sc.cfg();
     cfg["cap"] = json!([cap.0, cap.1]);
     cfg["how"] = json!(how % 4);
+    if tag == "hv" {
+        // scores of the order of MIN_SCORE / 2: judged by the heavy layer of the specification
+        cfg["heavy"] = json!(1);
+    }
     if !log.begin(tag, cfg) {
         return;
     }
@@ -538,6 +542,98 @@ pub fn drive(log: &mut Log) {
         log.oblige("small_calls_after_big_call_same_aligner");
         let cap = (rng.range(0, 16) as usize, rng.range(0, 16) as usize);
         run(log, "big", alpha, &sc, case, cap, &calls);
+    }
+    // (e) "heavy" schemes: penalties between MIN_SCORE and MIN_SCORE / 2 are legal parameters (only the
+    // value MIN_SCORE itself switches a clip off). Gaps and mismatches are almost forbidden by a penalty
+    // of about -4.5e8 and one or more clips are a little cheaper than that, so the optimum clips; tiny
+    // inputs (all sums stay inside i32), custom mode, one aligner for all calls of a run.
+    // Where a sum of such penalties leaves i32 the input is outside the domain of a 32-bit score type;
+    // that boundary is observable only with overflow checks (a panic instead of a wrapped value), so the
+    // class runs in the checked build only.
+    let hstrs = all_strings(ac, 3, true);
+    let nheavy = if cfg!(debug_assertions) { 16 + log.opts.n(120, 1200) } else { 0 };
+    if nheavy > 0 {
+        log.oblige("clip_penalty_between_sentinel_and_half_sentinel");
+    }
+    for h in 0..nheavy {
+        case += 1;
+        if !log.mine(case) {
+            continue;
+        }
+        let mut rng = Rng::new(seed, 7, case);
+        let heavy = |rng: &mut Rng| -(430_000_000 + rng.range(0, 20) as i32 * 1_000_000);
+        let mut clip = [MIN_SCORE; 4];
+        let (m, mm, go, ge);
+        if h < 16 {
+            // one clip enabled at -4.4e8 (each of the four in turn), everything else at -4.5e8
+            clip[(h % 4) as usize] = -440_000_000;
+            if h >= 8 {
+                clip[((h + 1 + h / 8) % 4) as usize] = [0, -1, -445_000_000, -440_000_000][(h / 4 % 4) as usize];
+            }
+            m = 1;
+            mm = -450_000_000;
+            go = if h % 8 < 4 { 0 } else { -1 };
+            ge = -450_000_000;
+        } else {
+            for c in clip.iter_mut() {
+                *c = match rng.below(6) {
+                    0 | 1 => MIN_SCORE,
+                    2 | 3 => heavy(&mut rng),
+                    4 => 0,
+                    _ => -(rng.range(1, 3) as i32),
+                };
+            }
+            if clip.iter().all(|&c| c == MIN_SCORE || c > -1000) {
+                clip[rng.below(4) as usize] = heavy(&mut rng);
+            }
+            m = rng.range(0, 2) as i32;
+            mm = if rng.chance(1, 4) { -(rng.range(1, 3) as i32) } else { heavy(&mut rng) - 5_000_000 };
+            // at most one of open / extend is heavy
+            if rng.chance(1, 3) {
+                go = heavy(&mut rng) - 5_000_000;
+                ge = -(rng.range(0, 2) as i32);
+            } else {
+                go = -(rng.range(0, 2) as i32);
+                ge = if rng.chance(1, 5) { -(rng.range(1, 3) as i32) } else { heavy(&mut rng) - 5_000_000 };
+            }
+        }
+        let sc = Scheme { table: mm_table(2, m, mm), simple: Some((m, mm)), go, ge, clip };
+        let mut calls = vec![];
+        if h < 16 {
+            // all pairs with |x| <= 2, |y| <= 3 or the other way round
+            for x in hstrs.iter() {
+                for y in hstrs.iter() {
+                    if x.len().min(y.len()) <= 2 && (calls.len() as u64 + h) % 3 != 0 {
+                        calls.push((0usize, x.clone(), y.clone(), None));
+                    }
+                }
+            }
+        } else {
+            for _ in 0..rng.range(8, 14) {
+                let x = hstrs[rng.below(hstrs.len() as u64) as usize].clone();
+                let y = if rng.chance(1, 3) && !x.is_empty() {
+                    // x with one symbol appended / prepended / dropped: the optimum clips one end
+                    let mut y = x.clone();
+                    match rng.below(3) {
+                        0 => y.push(ac[rng.below(2) as usize]),
+                        1 => y.insert(0, ac[rng.below(2) as usize]),
+                        _ => {
+                            y.pop();
+                        }
+                    }
+                    y.truncate(3);
+                    y
+                } else {
+                    hstrs[rng.below(hstrs.len() as u64) as usize].clone()
+                };
+                if rng.chance(1, 2) {
+                    calls.push((0usize, x, y, None));
+                } else {
+                    calls.push((0usize, y, x, None));
+                }
+            }
+        }
+        run(log, "hv", ac, &sc, case, (3, 3), &calls);
     }
 }
 
